@@ -607,3 +607,10 @@ func indexOf(ss []string, s string) int {
 	}
 	return 0
 }
+
+// C03's concurrency clause ("... no matter which other tests ran before it, run concurrently ..."; "creating or rewriting one
+// slot never changes the value that any other slot replays as"): the same generated scenarios x schedules, judged by the same
+// serial prediction - every call addresses its own slot and no slot is lost, duplicated or reverted by another test's write.
+func TestC03_ConcurrentSlots(t *testing.T) {
+	prop[schedCase]{property: "C03", gen: genSchedCase, check: checkSched, classify: classifySched}.run(t)
+}
